@@ -5,6 +5,7 @@ package gen
 
 import (
 	"fmt"
+	"strconv"
 	"strings"
 
 	"verifsim/internal/model"
@@ -71,6 +72,7 @@ type gen struct {
 	left     int
 	texts    []string
 	autoCmds []string
+	arithP   float64 // probability that a literal comparison / case value is written as arithmetic
 }
 
 func pick(r *rng.R, w []int) int {
@@ -240,14 +242,26 @@ func on01(r *rng.R, prob, max float64) float64 {
 	return 0
 }
 
+// StockAutoVarNames are command names of the command_config.json shipped with poryscript.
+var StockAutoVarNames = []string{"specialvar", "checkcoins", "random", "checkitem", "getpartysize", "choosecontestmon", "msgbox", "multichoice", "yesnobox"}
+
 // File draws one file from the configuration.
 func File(r *rng.R, c *Config) *model.File {
 	g := &gen{r: r, c: c, f: &model.File{}, left: c.Budget}
 	if c.AutoVars {
 		g.f.AutoVars = map[string]model.AutoVar{}
 		n := r.Range(1, 3)
+		// 3 files in 10 name their AutoVar commands after the stock command_config.json entries,
+		// with a kind drawn independently of the stock one (seeded change C11-19: built-in defaults
+		// merged field by field with the project's file)
+		nr := r.Fork("avnames")
+		stock := nr.P(0.3)
+		perm := nr.Perm(len(StockAutoVarNames))
 		for i := 0; i < n; i++ {
 			name := fmt.Sprintf("av%d", i)
+			if stock {
+				name = StockAutoVarNames[perm[i]]
+			}
 			if r.P(0.5) {
 				g.f.AutoVars[name] = model.AutoVar{VarName: []string{"VAR_RESULT", "VAR_0x8004", "VAR_TEMP_1"}[r.Intn(3)], ArgPos: -1}
 			} else {
@@ -255,6 +269,9 @@ func File(r *rng.R, c *Config) *model.File {
 			}
 			g.autoCmds = append(g.autoCmds, name)
 		}
+	}
+	if ar := r.Fork("arithcfg"); ar.P(0.3) {
+		g.arithP = 0.05 + 0.45*ar.Float()
 	}
 	ctx := bctx{}
 	for i := 0; i < c.NScripts; i++ {
@@ -473,6 +490,59 @@ func (g *gen) autoCmd() *model.Cmd {
 }
 
 // lit draws an integer literal from the run's value alphabet.
+// maybeArith writes v as an arithmetic expression over integer literals ("a + b * c" ...): the
+// compiler passes such operands through token by token and the assembler computes them with the
+// usual precedence (seeded change C03-19 folded them left to right). The decision and the
+// shape come from a forked stream, so files without arithmetic are generated as before.
+//
+// The operand right of a '-' is always decimal: written without blanks, "-0x5" is lexed by
+// poryscript as "-0" and "x5" (a limitation outside the claimed properties).
+func (g *gen) maybeArith(v int) (string, bool) {
+	if g.arithP <= 0 || v < 0 {
+		return "", false
+	}
+	nr := g.r.Fork("arith")
+	if !nr.P(g.arithP) {
+		return "", false
+	}
+	num := func(n int) string {
+		if nr.P(0.2) {
+			return fmt.Sprintf("0x%X", n)
+		}
+		return fmt.Sprint(n)
+	}
+	b, c := nr.Range(2, 5), nr.Range(2, 4)
+	form := nr.Intn(6)
+	if b*c > v && (form == 0 || form == 2) {
+		form = 1
+	}
+	switch form {
+	case 0:
+		return fmt.Sprintf("%s + %s * %s", num(v-b*c), num(b), num(c)), true
+	case 1:
+		return fmt.Sprintf("%s - %d * %s", num(v+b*c), b, num(c)), true
+	case 2:
+		return fmt.Sprintf("%s * %s + %s", num(b), num(c), num(v-b*c)), true
+	case 3:
+		if b <= v {
+			return fmt.Sprintf("%s + %s", num(v-b), num(b)), true
+		}
+		return fmt.Sprintf("%s - %d", num(v+b), b), true
+	case 4:
+		return fmt.Sprintf("%s - %d", num(v+b), b), true
+	}
+	// three terms, the product in the middle
+	return fmt.Sprintf("%s + %s * %s - %d", num(v+c), num(b), num(c), b*c+c), true
+}
+
+func (g *gen) maybeArithText(lit string) (string, bool) {
+	n, err := strconv.ParseInt(lit, 0, 32)
+	if err != nil {
+		return "", false
+	}
+	return g.maybeArith(int(n))
+}
+
 func (g *gen) lit() string {
 	r := g.r
 	if len(g.c.Vals) > 0 {
@@ -534,13 +604,21 @@ func (g *gen) leaf() *model.Leaf {
 				l.Val = fmt.Sprintf("0x40%02X", r.Intn(3))
 			case 3:
 				l.Strict = true
-				l.Val = g.viaConst(g.lit())
+				lt := g.lit()
+				l.Val = g.viaConst(lt)
+				if a, ok := g.maybeArithText(lt); ok {
+					l.Val = a
+				}
 			case 4:
 				l.Val = fmt.Sprintf("0x40%02X", r.Intn(3))
 			case 5:
 				l.Val = fmt.Sprintf("CONST_%d + %d", r.Intn(3), r.Intn(3))
 			default:
-				l.Val = g.viaConst(g.lit())
+				lt := g.lit()
+				l.Val = g.viaConst(lt)
+				if a, ok := g.maybeArithText(lt); ok {
+					l.Val = a
+				}
 			}
 		}
 	}
@@ -795,6 +873,9 @@ func (g *gen) switchStmt(depth int, ctx bctx) *model.Stmt {
 				cs.Value = fmt.Sprintf([]string{"0x%X", "0x%x", "0x%02x"}[r.Intn(3)], v)
 			}
 			cs.Value = g.viaConst(cs.Value)
+			if a, ok := g.maybeArith(v); ok {
+				cs.Value = a
+			}
 		}
 		if !r.P(c.PEmptyCase) {
 			// the last case body is closed by '}', so 'continue' may be its last statement
